@@ -991,9 +991,11 @@ def gen_tms_dataset(rng):
     has_east = rng.random() < 0.6
     if has_east:
         ref = Position(val=np.array([bases[si] for si, _ in rows]), system="trs")
-        if rng.random() < 0.4 and all(float(np.linalg.norm(b)) > 1e6 for b in bases):
-            # the reference position kept as latitude / longitude / height (the numbers of the array are not metres X, Y, Z)
-            ref = Position(val=np.asarray(ref.llh), system="llh")
+        if rng.random() < 0.4:
+            # the reference position kept as latitude / longitude / height (the numbers of the array are not metres X, Y, Z);
+            # points near the ellipsoid, where the conversion to X, Y, Z is exact far below the printed 0.1 mm
+            llh = [np.array([rng.uniform(-1.5, 1.5), rng.uniform(-3.1, 3.1), rng.uniform(-100.0, 3000.0)]) for _ in range(nsta)]
+            ref = Position(val=np.array([llh[si] for si, _ in rows]), system="llh")
         scale = rng.choice([0.05, 0.05, 5.0, 99999.0, 999999.0])
         enu = np.array([[rng.uniform(-scale, scale) for _ in range(3)] for _ in range(n)])
         d.add_position_delta(pre + "dsite_pos", val=enu, system="enu", ref_pos=ref)
